@@ -1,7 +1,10 @@
 """C09: correspondence for annotations placed inside a gene by protein coordinates
 (convert_protein_position_to_dna, Feature.get_sub_location_from_protein_coordinates, the codon_start
-adjustment of Feature.from_biopython/to_biopython, Prepeptide.to_biopython leader/core/tail,
-TTAResults.new_feature_from_other) and for the model's extraction assumption (location.extract)."""
+adjustment of Feature.from_biopython/to_biopython, Prepeptide.to_biopython leader/core/tail and the
+to_biopython -> from_biopython round trip through build_location_from_others,
+TTAResults.new_feature_from_other), for the model's extraction assumption (location.extract), and for the
+CALLERS of the sub-location function driven on generated records with several genes (hmmer.build_hits /
+run_hmmer and the result classes that turn hits into domains, nrps_pks_domains, the RiPP modules, tta.detect)."""
 import json
 import warnings
 
@@ -15,7 +18,9 @@ FN_NAMES = {1: "convert_protein_position_to_dna", 2: "Feature.get_sub_location_f
             4: "Prepeptide.to_biopython (leader/core/tail locations)", 5: "TTAResults.new_feature_from_other",
             6: "location.extract",
             7: "CDSFeature.from_biopython(codon_start) + translation + sub-location + to_biopython",
-            8: "Record.from_biopython -> CDS (codon_start) + translation + sub-location + Record.to_biopython + reload"}
+            8: "Record.from_biopython -> CDS (codon_start) + translation + sub-location + Record.to_biopython + reload",
+            9: "Prepeptide.to_biopython -> Prepeptide.from_biopython (build_location_from_others) -> to_biopython",
+            20: "build_location_from_others"}
 STRAND_CODE = {1: 1, -1: -1, 0: 0, None: 2}
 CODE_STRAND = {v: k for k, v in STRAND_CODE.items()}
 BASES = "ACGT"
@@ -134,6 +139,16 @@ def impl(fn, args):
     if fn in (7, 8):
         parts, codon_start, bases, _table, start, end, circular = args
         return impl_load(fn, parts, codon_start, bases, start, end, circular)
+    if fn == 9:
+        from antismash.common.secmet.features import Prepeptide
+        parts, leader_len, tail_len = args
+        loc = mk_loc(parts)
+        core_len = max(1, len(loc) // 3 - leader_len - tail_len)
+        pre = Prepeptide(loc, "lanthipeptide", "A" * core_len, "tag", "tool", leader="M" * leader_len, tail="C" * tail_len)
+        return impl_reread(pre)
+    if fn == 20:
+        (locs,) = args
+        return result(lambda: enc_pyloc(L.build_location_from_others([mk_loc(parts) for parts in locs])))
     raise ValueError(fn)
 
 
@@ -217,9 +232,12 @@ def encode(fn, args):
     if fn == 3:
         parts, codon_start, start, end = args
         return enc_parts(parts) + [codon_start, start, end]
-    if fn == 4:
+    if fn in (4, 9):
         parts, leader_len, tail_len = args
         return enc_parts(parts) + [leader_len, tail_len]
+    if fn == 20:
+        (locs,) = args
+        return [len(locs)] + [x for parts in locs for x in enc_parts(parts)]
     if fn == 5:
         parts, offset = args
         return enc_parts(parts) + [offset]
@@ -364,6 +382,420 @@ def python_property(parts, start, end, out, n, rng):
     return all(any(o[0] <= p[0] and p[1] <= o[1] for o in parts) for p in sub_parts)
 
 
+# ---------------------------------------------------------------- records with several genes: the real CALLERS
+# Every site that positions an annotation by protein coordinates is driven on a generated record that holds
+# several genes; each annotation it produces becomes one case of fn 2 (sub-location), fn 4 (leader/core/tail)
+# or fn 5 (TTA marker) whose "implementation output" is what the CALLER handed out, so that it is compared with
+# the model and judged by the Gallina specification against the gene it claims to belong to.
+
+CALLERS = {
+    "build_hits": "hmmer.build_hits -> HmmerResults.add_to_record -> PFAMDomain",
+    "run_hmmer": "hmmer.run_hmmer (hmmscan output injected) -> build_hits -> TIGRFamResults.add_to_record -> TIGRDomain",
+    "rrefinder": "hmmer.run_hmmer (hmmscan output injected) -> build_hits -> rrefinder.extract_rre_hits/filter_hits -> RREFinderResults -> RREDomain",
+    "nrps_domains": "nrps_pks_domains.generate_domain_features -> ModularDomain",
+    "nrps_motifs": "nrps_pks_domains.generate_motif_features -> CDSMotif",
+    "lanthi": "lanthipeptides.result_vec_to_feature -> Prepeptide.to_biopython",
+    "thio": "thiopeptides.result_vec_to_feature -> Prepeptide.to_biopython",
+    "lasso": "lassopeptides.result_vec_to_motif -> Prepeptide.to_biopython",
+    "sacti": "sactipeptides.determine_precursor_peptide_candidate (run_rodeo stubbed) -> Prepeptide.to_biopython",
+    "tta_detect": "tta.detect -> TTAResults.new_feature_from_other",
+}
+FAKE_DB = "/nonexistent/pfam/31.0/Pfam-A.hmm"
+FAKE_TIGR = "/nonexistent/tigrfam/TIGRFam.hmm"
+FAKE_RRE = "/nonexistent/rrefinder/RREFam.hmm"
+PROFILES = {f"prof{i}": f"PF{i:05d}.1" for i in range(1, 7)}
+FAKE_DBS = {FAKE_DB: PROFILES, FAKE_TIGR: {name: f"TIGR{i:05d}" for i, name in enumerate(sorted(PROFILES), 1)},
+            FAKE_RRE: {name: f"RREFam{i:03d}.1" for i, name in enumerate(sorted(PROFILES), 1)}}
+
+
+def gen_layout(rng):
+    """ exon sizes and intron sizes of one gene (in reading order), strand """
+    nex = rng.choice([1, 1, 2, 2, 3, 4])
+    codons = rng.choice([3, 4, 5, 6, 7, 8, 10, 12, 15])
+    length = 3 * codons + (rng.choice([1, 2]) if rng.random() < 0.15 else 0)
+    cuts = sorted(rng.sample(range(1, length), nex - 1)) if nex > 1 else []
+    lens = [b - a for a, b in zip([0] + cuts, cuts + [length])]
+    gaps = [rng.choice([0, 1, 1, 2, 3, 5]) for _ in range(nex - 1)]
+    return lens, gaps, rng.choice([1, -1])
+
+
+def gen_record(rng, table):
+    """ a record with 2-5 genes next to each other (both strands, 1-4 exons, some with /codon_start 2 or 3, 25%
+        of the records circular with the last gene running over the origin), its sequence made stop-free in every
+        gene's frame -> dict(n, bases, circular, genes=[dict(name, parts (as annotated), cs)]) """
+    count = rng.choice([2, 2, 3, 3, 4, 5])
+    layouts = [gen_layout(rng) for _ in range(count)]
+    lead = rng.randint(0, 12)
+    pos = lead
+    placed = []
+    for lens, gaps, strand in layouts:
+        exons = []
+        for i, size in enumerate(lens):
+            exons.append((pos, pos + size))
+            pos += size + (gaps[i] if i < len(gaps) else 0)
+        placed.append((exons, strand))
+        pos += rng.choice([0, 1, 3, 7, 12])
+    cross = rng.random() < 0.25
+    if cross:
+        last_exons = placed[-1][0]
+        inside = last_exons[-1][1] - last_exons[0][0]
+        over = rng.randint(1, max(1, min(lead, inside - 1))) if lead else 0
+        n = last_exons[-1][1] - over
+        cross = over > 0
+    if not cross:
+        n = pos + rng.randint(0, 9)
+    genes = []
+    for k, (exons, strand) in enumerate(placed):
+        parts = []
+        for start, end in exons:
+            if start < n < end:
+                parts += [(start, n, strand), (0, end - n, strand)]
+            elif start >= n:
+                parts.append((start - n, end - n, strand))
+            else:
+                parts.append((start, end, strand))
+        spanning = any(b[0] < a[0] for a, b in zip(parts, parts[1:]))
+        if strand == -1:
+            parts.reverse()
+        first_len = parts[0][1] - parts[0][0]
+        cs = rng.choice([-1, -1, 1, 2, 3]) if (not spanning or len(parts) == 1) else rng.choice([-1, 1])
+        if 2 <= cs and (first_len <= cs - 1 or sum(e - s for s, e, _ in parts) - (cs - 1) < 9):
+            cs = 1
+        genes.append({"name": f"gene{k + 1}", "parts": parts, "cs": cs, "spanning": spanning})
+    bases = [rng.randrange(4) for _ in range(n)]
+    for gene in genes:
+        off = gene["cs"] - 1 if gene["cs"] >= 2 else 0
+        length = sum(e - s for s, e, _ in gene["parts"])
+        remove_stops(Gene(gene["parts"], n, "plain", length), off, bases, table)
+    return {"n": n, "bases": bases, "circular": bool(cross), "genes": genes}
+
+
+def plant_tta(rng, spec, table):
+    """ writes TTA into some codons of the genes (reading frame of the stored location) """
+    for gene in spec["genes"]:
+        off = gene["cs"] - 1 if gene["cs"] >= 2 else 0
+        coords = []
+        for s, e, st in gene["parts"]:
+            coords += [(i, st) for i in (range(e - 1, s - 1, -1) if st == -1 else range(s, e))]
+        coords = coords[off:]
+        for k in range(3, len(coords) - 2, 3):
+            if rng.random() < 0.25:
+                for (i, st), base in zip(coords[k:k + 3], (3, 3, 0)):
+                    spec["bases"][i] = 3 - base if st == -1 else base
+    # an exon border inside a codon can make a planted codon of a neighbouring gene... genes do not overlap: none
+    for gene in spec["genes"]:
+        off = gene["cs"] - 1 if gene["cs"] >= 2 else 0
+        length = sum(e - s for s, e, _ in gene["parts"])
+        remove_stops(Gene(gene["parts"], spec["n"], "plain", length), off, spec["bases"], table)
+
+
+def build_record(spec):
+    """ the secmet Record with its CDS features, loaded the way input records are """
+    from Bio.Seq import Seq
+    from Bio.SeqFeature import SeqFeature
+    from antismash.common.secmet import Record
+    from antismash.common.secmet.features import CDSFeature
+    seq = Seq("".join(BASES[b] for b in spec["bases"]))
+    annotations = {"molecule_type": "DNA", "topology": "circular" if spec["circular"] else "linear"}
+    record = Record(seq, transl_table=11, annotations=annotations)
+    record.id = "rec"
+    for gene in spec["genes"]:
+        qualifiers = {"locus_tag": [gene["name"]]}
+        if gene["cs"] >= 1:
+            qualifiers["codon_start"] = [str(gene["cs"])]
+        bio = SeqFeature(mk_loc(gene["parts"]), type="CDS", qualifiers=qualifiers)
+        record.add_cds_feature(CDSFeature.from_biopython(bio, record=record))
+    return record
+
+
+def stored_parts(cds):
+    return [(int(p.start), int(p.end), STRAND_CODE[p.strand]) for p in cds.location.parts]
+
+
+def gen_hits(rng, record):
+    """ protein ranges per gene; a pool of ranges shared by the genes of the record makes hits with identical
+        protein coordinates in different genes (paralogues, related profiles) -> {gene: [(profile, s, e, score, evalue)]} """
+    genes = list(record.get_cds_features())
+    shortest = min(len(cds.translation) for cds in genes)
+    pool = []
+    for _ in range(rng.choice([1, 2, 3])):
+        s = rng.randint(0, shortest - 1)
+        pool.append((s, rng.randint(s + 1, shortest)))
+    hits = {}
+    for cds in genes:
+        total = len(cds.translation)
+        mine = []
+        for _ in range(rng.choice([1, 2, 2, 3, 4])):
+            if rng.random() < 0.6:
+                s, e = rng.choice(pool)
+            else:
+                s = rng.randint(0, total - 1)
+                e = rng.randint(s + 1, total)
+            score, evalue = (50. + rng.randint(0, 40), 1e-20) if rng.random() < 0.9 else rng.choice([(1., 1e-20), (50., 5.)])
+            mine.append((rng.choice(sorted(PROFILES)), s, e, score, evalue))
+        hits[cds.get_name()] = mine
+    return hits
+
+
+def fake_hmmscan(hits_by_gene):
+    """ stand-ins for the Bio.SearchIO QueryResult / HSP objects that run_hmmscan returns """
+    from types import SimpleNamespace
+    results = []
+    for gene, hits in hits_by_gene.items():
+        hsps = [SimpleNamespace(query_id=gene, query_start=s, query_end=e, hit_id=profile,
+                                hit_description=f"{profile} description", bitscore=score, evalue=evalue)
+                for profile, s, e, score, evalue in hits]
+        results.append(SimpleNamespace(id=gene, hsps=hsps))
+    return results
+
+
+class CallerFault(Exception):
+    """ a caller did not produce the annotations it was asked for (count, gene, coordinates) """
+
+
+def domain_annotations(caller, features, expected, record):
+    """ [(caller, cds, s, e, location or exception, stored translation)] for domain-like features, after checking that
+        the caller produced exactly the requested (gene, s, e) in order """
+    got = [(f.locus_tag, int(f.protein_location.start), int(f.protein_location.end)) for f in features]
+    if got != expected:
+        raise CallerFault(f"{CALLERS[caller]}: produced {got}, requested {expected}")
+    return [(caller, record.get_cds_by_name(f.locus_tag), int(f.protein_location.start), int(f.protein_location.end),
+             f.location, f.translation) for f in features]
+
+
+def drive_hmmer(rng, record):
+    """ build_hits / run_hmmer and the three result classes that turn hits into features """
+    from unittest import mock
+    from antismash.common import hmmer, pfamdb
+    from antismash.detection.tigrfam.tigr_results import TIGRFamResults
+    from antismash.modules.rrefinder import rrefinder
+    for database, mapping in FAKE_DBS.items():
+        pfamdb.KNOWN_MAPPINGS[database] = dict(mapping)
+    hits_by_gene = gen_hits(rng, record)
+    kept = [(gene, s, e) for gene, hits in hits_by_gene.items() for _p, s, e, score, evalue in hits
+            if score > 10. and evalue < 1.]
+    out = []
+    # full_hmmer / cluster_hmmer: build_hits, then HmmerResults.add_to_record
+    hits = hmmer.build_hits(record, fake_hmmscan(hits_by_gene), 10., 1., FAKE_DB)
+    results = hmmer.HmmerResults(record.id, 1., 10., FAKE_DB, "fullhmmer", hits)
+    before = len(record.get_pfam_domains())
+    results.add_to_record(record)
+    out += domain_annotations("build_hits", record.get_pfam_domains()[before:], kept, record)
+
+    def run(database, tool, **kwargs):
+        with mock.patch.object(hmmer.os.path, "exists", return_value=True), \
+                mock.patch.object(hmmer.subprocessing, "run_hmmscan", return_value=fake_hmmscan(hits_by_gene)):
+            return hmmer.run_hmmer(record, record.get_cds_features(), 1., 10., database, tool,
+                                   filter_overlapping=False, **kwargs)
+    # tigrfam: run_hmmer as the module calls it, then TIGRFamResults.add_to_record
+    tigr = TIGRFamResults.from_hmmer_results(run(FAKE_TIGR, "tigrfam"))
+    tigr.add_to_record(record)
+    new = [f for f in record.get_antismash_domains() if f.domain_id.startswith("TIGRFam_")]
+    out += domain_annotations("run_hmmer", sorted(new, key=lambda f: int(f.domain_id.rsplit("_", 1)[1])), kept, record)
+    # rrefinder: run_hmmer as run_rrefinder calls it, extract_rre_hits, filter_hits, RREFinderResults
+    by_cds = rrefinder.extract_rre_hits(run(FAKE_RRE, "rrefinder", use_cut_tc=False))
+    by_cds, by_proto = rrefinder.filter_hits(by_cds, {1: list(by_cds)}, 1, 10.)
+    rre = rrefinder.RREFinderResults(record.id, 10., 1, by_proto, by_cds)
+    out += domain_annotations("rrefinder", rre.features, [(h.locus_tag, h.protein_start, h.protein_end)
+                                                          for hs in by_cds.values() for h in hs], record)
+    if sorted((h.locus_tag, h.protein_start, h.protein_end) for hs in by_cds.values() for h in hs) != sorted(kept):
+        raise CallerFault(f"{CALLERS['rrefinder']}: hits kept differ from the hits requested")
+    return out
+
+
+def drive_nrps(rng, record):
+    from antismash.common.hmmscan_refinement import HMMResult
+    from antismash.detection.nrps_pks_domains import domain_identification as di
+    out = []
+    pool = []
+    for cds in record.get_cds_features():
+        total = len(cds.translation)
+        ranges = []
+        for _ in range(rng.choice([1, 2, 3])):
+            if pool and rng.random() < 0.5 and pool[-1][1] <= total:
+                ranges.append(pool[-1])
+            else:
+                s = rng.randint(0, total - 1)
+                ranges.append((s, rng.randint(s + 1, total)))
+                pool.append(ranges[-1])
+        names = ["PKS_KS", "PKS_AT", "Condensation_LCL", "AMP-binding", "PCP", "Thioesterase"]
+        domains = [HMMResult(rng.choice(names), s, e, 1e-10, 40. + i) for i, (s, e) in enumerate(ranges)]
+        made = di.generate_domain_features(cds, domains)
+        feats = [made[d] for d in domains]
+        out += domain_annotations("nrps_domains", feats, [(cds.get_name(), s, e) for s, e in ranges], record)
+        motifs = [HMMResult(f"motif{i}", s, e, 1e-5, 20.) for i, (s, e) in enumerate(ranges)]
+        feats = di.generate_motif_features(cds, motifs)
+        out += domain_annotations("nrps_motifs", feats, [(cds.get_name(), s, e) for s, e in ranges], record)
+    return out
+
+
+def drive_ripps(rng, record):
+    """ the four RiPP modules' converters from a prediction to a Prepeptide -> [(caller, cds, prepeptide, ll, tl)] """
+    from types import SimpleNamespace
+    from unittest import mock
+    from importlib import import_module
+    lanthi, thio, lasso, sacti = [import_module(f"antismash.modules.{name}.specific_analysis")
+                                  for name in ("lanthipeptides", "thiopeptides", "lassopeptides", "sactipeptides")]
+    out = []
+    for cds in record.get_cds_features():
+        text = cds.translation
+        total = len(text)
+        if total < 3:
+            continue
+        caller = rng.choice(["lanthi", "thio", "lasso", "sacti"])
+        ll = rng.randint(1, total - 1)
+        tl = rng.choice([0, rng.randint(0, total - 1 - ll)])
+        common_kw = dict(score=10., monoisotopic_mass=1., molecular_weight=2., alternative_weights=[3.], rodeo_score=5)
+        if caller == "lanthi":
+            tl = 0
+            vec = SimpleNamespace(leader=text[:ll], core=text[ll:], lantype="Class I", number_of_lan_bridges=1,
+                                  aminovinyl_group=False, chlorinated=False, oxygenated=False, lactonated=False, **common_kw)
+            pre = lanthi.result_vec_to_feature(cds, vec)
+        elif caller == "thio":
+            vec = SimpleNamespace(leader=text[:ll], core=text[ll:], c_cut=text[total - tl:] if tl else "", thio_type="Type I",
+                                  mature_alt_weights=[1.], amidation=False, macrocycle="26-member", mature_features="",
+                                  **common_kw)
+            pre = thio.result_vec_to_feature(cds, vec)
+        elif caller == "lasso":
+            vec = SimpleNamespace(leader=text[:ll], core=text[ll:], c_cut=text[total - tl:] if tl else "", lasso_class="Class II",
+                                  number_bridges=0, macrolactam="", cut_mass=1., cut_weight=1., **common_kw)
+            pre = lasso.result_vec_to_motif(cds, vec)
+        else:
+            tl = 0
+            ll = total // 4
+            with mock.patch.object(sacti, "run_rodeo", return_value=(True, 20)), \
+                    mock.patch.object(sacti, "MIN_PRECURSOR_LENGTH", 1), mock.patch.object(sacti, "MAX_PRECURSOR_LENGTH", 10000):
+                pre = sacti.determine_precursor_peptide_candidate(None, cds, text, {})
+            if ll == 0:     # an empty leader: no leader feature is written
+                pass
+        if (pre.leader, pre.core, pre.tail) != (text[:ll], text[ll:total - tl], text[total - tl:] if tl else ""):
+            raise CallerFault(f"{CALLERS[caller]}: sections {pre.leader!r} {pre.core!r} {pre.tail!r} of {text!r} [{ll}, -{tl}]")
+        out.append((caller, cds, pre, ll, tl))
+    return out
+
+
+def drive_tta(record):
+    """ tta.detect over a region that holds every gene -> [(cds, offset, marker location)] in the order of the calls,
+        plus the offsets an independent scan of each gene's extracted sequence expects """
+    from types import SimpleNamespace
+    from antismash.common.secmet.features import SubRegion
+    from antismash.common.secmet.locations import FeatureLocation
+    from antismash.modules.tta import tta
+    record.add_subregion(SubRegion(FeatureLocation(0, len(record.seq), 1), tool="verif"))
+    record.create_candidate_clusters()
+    record.create_regions()
+    calls = []
+    original = tta.TTAResults.new_feature_from_other
+
+    def recording(self, feature, offset):
+        made = original(self, feature, offset)
+        calls.append((feature, offset, made.location))
+        return made
+    tta.TTAResults.new_feature_from_other = recording
+    try:
+        results = tta.detect(record, SimpleNamespace(tta_threshold=0.0))
+    finally:
+        tta.TTAResults.new_feature_from_other = original
+    expected = []
+    for cds in record.get_cds_features_within_regions():
+        text = str(cds.location.extract(record.seq)).upper()
+        expected += [(cds.get_name(), i) for i in range(0, len(text), 3) if text[i:i + 3] == "TTA"]
+    got = [(feature.get_name(), offset) for feature, offset, _loc in calls]
+    if got != expected or len(results.features) != len(calls):
+        raise CallerFault(f"{CALLERS['tta_detect']}: marked {got}, the genes contain TTA codons at {expected}")
+    return calls
+
+
+def record_doc(spec):
+    return {"length": spec["n"], "circular": spec["circular"], "sequence": "".join(BASES[b] for b in spec["bases"]),
+            "genes": [{"name": g["name"], "location": fmt_parts(g["parts"]), "codon_start": g["cs"] if g["cs"] >= 1 else None}
+                      for g in spec["genes"]]}
+
+
+def gene_obj(cds, spec):
+    parts = stored_parts(cds)
+    spanning = any(b[0] < a[0] for a, b in zip(*( (parts, parts[1:]) if parts[0][2] != -1 else (parts[::-1], parts[::-1][1:]))))
+    return Gene(parts, spec["n"], "spanning" if spanning else "plain", sum(e - s for s, e, _ in parts))
+
+
+def translation_agrees(record, cds, s, e, location, stored):
+    """ the observation point of the property on the real objects: extract + translate of the annotation's location is
+        residues [s,e) of the gene (the stored first residue is M whatever the start codon) and the translation stored
+        with the annotation is that stretch """
+    expected = cds.translation[s:e]
+    got = str(location.extract(record.seq).translate(table=11))
+    if s == 0:
+        got, expected = got[1:], expected[1:]
+    return got == expected and (stored is None or stored == cds.translation[s:e])
+
+
+def caller_cases(rng, table, count):
+    """ -> list of (fn, args, gene, origin, impl_out) """
+    cases = []
+    for _ in range(count):
+        spec = gen_record(rng, table)
+        with_tta = rng.random() < 0.3
+        if with_tta:
+            plant_tta(rng, spec, table)
+        doc = record_doc(spec)
+        record = build_record(spec)
+        annotations = []
+        try:
+            annotations += drive_hmmer(rng, record)
+            annotations += drive_nrps(rng, record)
+            ripps = drive_ripps(rng, record)
+            markers = drive_tta(record) if with_tta else []
+        except Exception as fault:  # pylint: disable=broad-except
+            # the harness' own oracle (requested vs produced annotations, TTA codons of the extracted gene) gives a verdict
+            # on a concrete record: counterexample; any other exception: the caller could not be driven
+            kind = "counterexample" if isinstance(fault, CallerFault) else "broken-correspondence"
+            cases.append((0, None, None, {"fault": f"{type(fault).__name__}: {fault}", "record": doc, "kind": kind}, None))
+            continue
+        for caller, cds, s, e, location, stored in annotations:
+            origin = {"caller": CALLERS[caller], "gene": cds.get_name(), "record": doc,
+                      "annotation": {"protein_start": s, "protein_end": e, "location": str(location), "translation": stored},
+                      "translation_agrees": translation_agrees(record, cds, s, e, location, stored)}
+            cases.append((2, (stored_parts(cds), False, False, s, e), gene_obj(cds, spec), origin, [0] + enc_pyloc(location)))
+        for caller, cds, pre, ll, tl in ripps:
+            origin = {"caller": CALLERS[caller], "gene": cds.get_name(), "record": doc,
+                      "annotation": {"leader": pre.leader, "core": pre.core, "tail": pre.tail}}
+
+            def sections(pre=pre):
+                feats = pre.to_biopython()
+                out = [len(feats)]
+                for feat in feats:
+                    out += enc_pyloc(feat.location)
+                return out
+            cases.append((4, (stored_parts(cds), ll, tl), gene_obj(cds, spec), origin, result(sections)))
+            cases.append((9, (stored_parts(cds), ll, tl), gene_obj(cds, spec), dict(origin), impl_reread(pre)))
+        for cds, offset, location in markers:
+            origin = {"caller": CALLERS["tta_detect"], "gene": cds.get_name(), "record": doc,
+                      "annotation": {"offset": offset, "location": str(location)}}
+            cases.append((5, (stored_parts(cds), offset), gene_obj(cds, spec), origin, [0] + enc_pyloc(location)))
+    return cases
+
+
+def impl_reread(pre):
+    """ Prepeptide.to_biopython -> Prepeptide.from_biopython (what reusing results from a GenBank file does), then
+        the sections of the re-read prepeptide """
+    from antismash.common.secmet.features import Prepeptide
+    try:
+        core = [feat for feat in pre.to_biopython() if feat.qualifiers["prepeptide"] == ["core"]][0]
+        again = Prepeptide.from_biopython(core)
+    except Exception as exc:  # pylint: disable=broad-except
+        return [1, err_code(exc)]
+    if (again.leader, again.core, again.tail) != (pre.leader, pre.core, pre.tail):
+        return [1, 98]
+
+    def sections():
+        feats = again.to_biopython()
+        out = [len(feats)]
+        for feat in feats:
+            out += enc_pyloc(feat.location)
+        return out
+    return [0] + enc_pyloc(again.location) + result(sections)
+
+
 # ---------------------------------------------------------------- the run
 
 RULE = ("genes of 1-4 exons (introns 0-5 bases, exons cut anywhere incl. inside codons), either strand (10%: strand 0/None), "
@@ -379,8 +811,20 @@ RULE = ("genes of 1-4 exons (introns 0-5 bases, exons cut anywhere incl. inside 
         "CDSFeature.from_biopython / Record.from_biopython load path, "
         "location.extract (the model's extraction assumption). Every implementation output is also judged by the decidable "
         "specification in Gallina (inside the gene, 3 bases per residue, reads exactly coordinates 3s..3e of the gene's reading "
-        "order) and, for sub-locations, by extract+translate on a random sequence with Biopython. non-trivial = compound gene "
-        "or reverse strand; distinct by flat encoding")
+        "order) and, for sub-locations, by extract+translate on a random sequence with Biopython. "
+        "Prepeptide round trip (fn 9): Prepeptide.to_biopython -> Prepeptide.from_biopython (build_location_from_others) -> "
+        "to_biopython on the same genes, section boundaries inside exons and (30%) on exon borders; build_location_from_others "
+        "alone on 1-4 adjoining / separate, simple / compound locations in either order (fn 20). "
+        "CALLERS: 450 (quick) / 6000 (thorough) generated records of 2-5 neighbouring genes (both strands, 1-4 exons, introns 0-5, "
+        "/codon_start 1-3 or absent, 25% circular with the last gene over the origin, frames stop-free), hits drawn from a pool of "
+        "protein ranges shared by the genes of a record (identical [s,e) in different genes, also for different profiles), 10% of "
+        "the hits below the score / above the evalue threshold; driven: hmmer.build_hits + HmmerResults.add_to_record (PFAMDomain), "
+        "hmmer.run_hmmer with injected hmmscan results + TIGRFamResults.add_to_record, run_hmmer + rrefinder.extract_rre_hits / "
+        "filter_hits / RREFinderResults (RREDomain), nrps_pks_domains.generate_domain_features / generate_motif_features, the four "
+        "RiPP converters (lanthi/thio/lasso result_vec_to_*, sacti determine_precursor_peptide_candidate with run_rodeo stubbed) + "
+        "Prepeptide.to_biopython + the round trip, tta.detect on records with planted TTA codons (30% of the records); every "
+        "annotation produced is one case (its gene, its protein range, the location the caller handed out, the stored translation). "
+        "non-trivial = compound gene or reverse strand; distinct by flat encoding")
 
 
 def known_classes():
@@ -398,7 +842,15 @@ def gen_case(rng, table):
         gene = gen_gene(rng)
         s, e = gen_range(rng, gene)
         return 1, (s, e, gene.parts), gene
-    if r < 0.62:
+    if 0.55 <= r < 0.61:
+        while True:
+            gene = gen_gene(rng)
+            if feature_ok(gene.parts):
+                break
+        return 9, (gene.parts,) + gen_sections(rng, gene), gene
+    if 0.61 <= r < 0.62:
+        return gen_blo_case(rng)
+    if r < 0.55:
         while True:
             gene = gen_gene(rng)
             if feature_ok(gene.parts):
@@ -424,13 +876,7 @@ def gen_case(rng, table):
             gene = gen_gene(rng)
             if feature_ok(gene.parts):
                 break
-        total = gene.codons
-        ll = rng.choice([0, 0, 1, rng.randint(0, total + 1)])
-        tl = rng.choice([0, 0, 1, rng.randint(0, total + 1)])
-        if rng.random() < 0.8 and total >= 1:
-            ll = min(ll, total - 1)
-            tl = min(tl, total - 1 - ll)
-        return 4, (gene.parts, ll, tl), gene
+        return 4, (gene.parts,) + gen_sections(rng, gene), gene
     if r < 0.92:
         while True:
             gene = gen_gene(rng)
@@ -444,6 +890,44 @@ def gen_case(rng, table):
     gene = gen_gene(rng)
     bases = [rng.randrange(4) for _ in range(gene.n)]
     return 6, (gene.parts, bases), gene
+
+
+def gen_sections(rng, gene):
+    """ leader and tail lengths: mostly valid, with weight on section boundaries that fall on exon borders """
+    total = gene.codons
+    ll = rng.choice([0, 0, 1, rng.randint(0, total + 1)])
+    tl = rng.choice([0, 0, 1, rng.randint(0, total + 1)])
+    borders = exon_border_residues(gene)
+    if borders and rng.random() < 0.3:
+        ll = rng.choice(borders)
+        if rng.random() < 0.5:
+            tl = total - rng.choice(borders)
+    if rng.random() < 0.8 and total >= 1:
+        ll = min(ll, total - 1)
+        tl = max(0, min(tl, total - 1 - ll))
+    return ll, tl
+
+
+def gen_blo_case(rng):
+    """ build_location_from_others on 1-4 locations: adjoining or apart, simple or compound, either order """
+    strand = rng.choice([1, -1, 1, -1, 0, 2])
+    locs = []
+    pos = rng.randint(0, 10)
+    for _ in range(rng.choice([1, 2, 2, 3, 3, 4])):
+        parts = []
+        for _ in range(rng.choice([1, 1, 2, 3])):
+            size = rng.randint(1, 9)
+            parts.append((pos, pos + size, strand if rng.random() < 0.95 else -strand if strand in (1, -1) else 1))
+            pos += size + rng.choice([0, 1, 2, 5])
+        if rng.random() < 0.5:
+            pos = parts[-1][1]      # the next location adjoins
+        if rng.random() < 0.4:
+            parts.reverse()
+        locs.append(parts)
+    if rng.random() < 0.4:
+        locs.reverse()
+    flat = [p for parts in locs for p in parts]
+    return 20, (locs,), Gene(flat, pos + 1, "locations", sum(e - s for s, e, _ in flat))
 
 
 def shifted_gene(gene, off):
@@ -586,6 +1070,40 @@ def judge_load(chk, i, fn, args, gene, verdict, out, report):
                ": the sub-location does not cover the nucleotides that encode the residues of the stored translation")
 
 
+def judge_reread(chk, i, args, gene, verdict, report):
+    """ verdict of the Gallina specification on a re-read prepeptide: [0, location reads the gene's coding bases,
+        sections of the re-read prepeptide satisfy the specification, location identical, gene class] or [1, error, class] """
+    parts, ll, tl = args
+    shown = [ll, tl]
+    if len(verdict) not in (3, 5):
+        chk.violation("broken-correspondence", "specification function did not decode its input",
+                      {"theorem_or_correspondence": "spec encoding", "function": FN_NAMES[9]})
+        return
+    cls = verdict[-1]
+    if cls == 2 or not (0 <= ll and 0 <= tl and ll + tl < gene.codons):
+        chk.count("spec_no_verdict(out of range or malformed gene)")
+        return
+    guard = cls == 0
+    finding = CLASS_SPANNING if cls == 1 else (CLASS_OVERLAP if cls == 3 else None)
+    where = "guard" if guard else "outside_guard"
+    theorem = "C09_prepeptide_reread"
+    if verdict[0] == 1:
+        chk.count(f"spec_fn9_{where}_FAILS")
+        report(i, 9, parts, shown, guard, finding, theorem,
+               f": the prepeptide cannot be written and read back ({common.ERR_NAME.get(verdict[1], verdict[1])})")
+        return
+    _zero, ok_loc, ok_again, same, _cls = verdict
+    chk.count(f"spec_fn9_{where}_{'ok' if ok_loc and ok_again else 'FAILS'}")
+    if ok_loc:
+        chk.count("reread_location_identical" if same else "reread_location_equivalent(same bases in the same order, other parts)")
+    if not ok_loc:
+        report(i, 9, parts, shown, guard, finding, theorem,
+               ": the location of the re-read prepeptide does not read the gene's coding bases in order")
+    elif not ok_again:
+        report(i, 9, parts, shown, guard, finding, theorem,
+               ": leader/core/tail computed from the re-read prepeptide do not cover the nucleotides that encode them")
+
+
 def run(chk):
     if not chk.build_and_audit():
         return chk.finish(RULE)
@@ -598,13 +1116,31 @@ def run(chk):
     cases, impl_outs, meta = [], [], []
     fixed = corpus()
     table = codon_table()
-    for i in range(total):
-        fn, args, gene = fixed[i] if i < len(fixed) else gen_case(chk.rng, table)
+    n_records = 450 if chk.tier == "quick" else 6000
+    from_callers = []
+    for item in caller_cases(__import__("random").Random(chk.seed + 11), table, n_records):
+        if item[0] == 0:    # a caller raised, or did not produce the annotations it was asked for
+            chk.count("caller_fault")
+            if chk.histogram["caller_fault"] <= 3:
+                chk.violation(item[3]["kind"], "a caller of get_sub_location_from_protein_coordinates did not produce the "
+                              "annotations asked for on a generated record: " + item[3]["fault"],
+                              {"theorem_or_correspondence": "callers driven on generated records", "input": item[3]})
+            continue
+        from_callers.append(item)
+    chk.extra["records_driven_through_the_callers"] = n_records
+    for i in range(total + len(from_callers)):
+        origin = None
+        if i >= total:
+            fn, args, gene, origin, out = from_callers[i - total]
+        else:
+            fn, args, gene = fixed[i] if i < len(fixed) else gen_case(chk.rng, table)
+            out = impl(fn, args)
         flat = [PROP, fn] + encode(fn, args)
-        out = impl(fn, args)
         cases.append(flat)
         impl_outs.append(out)
-        meta.append((fn, args, gene))
+        meta.append((fn, args, gene, origin))
+        if origin:
+            chk.count("caller: " + origin["caller"])
         chk.count(FN_NAMES[fn])
         chk.count(f"gene_{gene.kind}")
         chk.count(f"exons_{len(gene.parts)}")
@@ -622,11 +1158,11 @@ def run(chk):
     model_outs = common.correspondence(chk, cases, impl_outs, spec_fn_offset=None, describe=describe)
 
     # ---- the specification evaluated on every implementation output (fn 2, 3, 4, 5)
-    judged = [i for i, (fn, _a, _g) in enumerate(meta) if fn in (2, 4, 5, 7, 8)]
+    judged = [i for i, (fn, _a, _g, _o) in enumerate(meta) if fn in (2, 4, 5, 7, 8, 9)]
     spec_cases = [[PROP, cases[i][1] + SPEC_OFFSET] + cases[i][2:] + impl_outs[i] for i in judged]
     # fn 3: class of the original gene, and the sub-location judged against the ADJUSTED gene
     cs_cases = []
-    for i, (fn, args, gene) in enumerate(meta):
+    for i, (fn, args, gene, _origin) in enumerate(meta):
         if fn != 3:
             continue
         parts, cs, s, e = args
@@ -647,13 +1183,18 @@ def run(chk):
     pending = []     # counterexamples; those inside the proved guard and the smallest first
 
     def report(i, fn, parts, shown_args, guard, finding, theorem, clause=""):
-        replay = {"theorem_or_correspondence": theorem, "function": FN_NAMES[fn], "flat": cases[i],
+        origin = meta[i][3]
+        name = FN_NAMES[fn] if not origin else f"{origin['caller']} (judged as {FN_NAMES[fn]})"
+        replay = {"theorem_or_correspondence": theorem, "function": name, "flat": cases[i],
                   "input": {"gene": fmt_parts(parts), "args": shown_args, "record_length": meta[i][2].n},
                   "implementation": impl_outs[i], "model": model_outs[i], "spec_ok": False, "guard": guard,
                   "finding_class": finding, "failed_clause": clause}
+        if origin:
+            replay["input"].update({k: origin[k] for k in ("caller", "gene", "record", "annotation")})
+            replay["input"]["gene_location"] = fmt_parts(parts)
         if guard or finding is None:
             where = "inside the proved guard" if guard else "outside every recorded finding class"
-            pending.append((0, len(cases[i]), f"{FN_NAMES[fn]}: output violates the property {where}{clause} "
+            pending.append((0, len(cases[i]), f"{name}: output violates the property {where}{clause} "
                             f"({fmt_parts(parts)}, args {shown_args})", replay))
         elif finding in known and impl_outs[i] == model_outs[i]:
             if finding not in reported:
@@ -662,13 +1203,16 @@ def run(chk):
         else:
             why = ("not recorded as known in known_findings.json" if finding not in known else
                    "recorded as known, but the implementation no longer behaves like the faithful model there")
-            pending.append((1, len(cases[i]), f"{FN_NAMES[fn]}: output violates the property (class {finding}, {why})",
+            pending.append((1, len(cases[i]), f"{name}: output violates the property (class {finding}, {why})",
                             replay))
 
     for i, verdict in zip(judged, verdicts):
-        fn, args, gene = meta[i]
+        fn, args, gene, origin = meta[i]
         if fn in (7, 8):
             judge_load(chk, i, fn, args, gene, verdict, impl_outs[i], report)
+            continue
+        if fn == 9:
+            judge_reread(chk, i, args, gene, verdict, report)
             continue
         if len(verdict) != 2:
             chk.violation("broken-correspondence", "specification function did not decode its input",
@@ -737,6 +1281,12 @@ def run(chk):
                 break
             if py_ok and not ok:
                 chk.count("coincidental_sequence_match")
+            if origin and ok and not origin["translation_agrees"]:
+                chk.count("caller_translation_FAILS")
+                report(i, fn, parts, shown_args, guard, finding, theorem,
+                       ": the location is right but extract+translate on the record, or the translation stored with "
+                       "the annotation, is not that stretch of the gene's translation")
+                continue
         if not ok:
             report(i, fn, parts, shown_args, guard, finding, theorem)
     pending.sort(key=lambda item: item[:2])
@@ -765,4 +1315,11 @@ def replay(chk, path):
     if flat[1] in (2, 4, 5) and doc.get("implementation"):
         print("specification verdict [ok, class] on the recorded implementation output:",
               common.run_driver([[flat[0], flat[1] + SPEC_OFFSET] + flat[2:] + doc["implementation"]])[0])
+    if flat[1] == 9 and doc.get("implementation"):
+        print("specification verdict [0, re-read location reads the gene's coding bases, sections of the re-read prepeptide ok, "
+              "location identical, class] (or [1, error, class]) on the recorded implementation output:",
+              common.run_driver([[flat[0], 19] + flat[2:] + doc["implementation"]])[0])
+    if (doc.get("input") or {}).get("caller"):
+        print("produced by:", doc["input"]["caller"], "for", doc["input"]["gene"], "of the record in the replay file "
+              "(input.record: sequence, genes); annotation:", doc["input"]["annotation"])
     return 0
